@@ -56,6 +56,9 @@ fn main() {
         if r.starts_with("wslock ") || r.starts_with("wslockc ") { let t: Vec<&str> = r.split_whitespace().collect(); let rt = tokio::runtime::Builder::new_multi_thread().worker_threads(2).enable_all().build().unwrap();
             let rounds: usize = t[2].parse().unwrap(); let (sent, handed, replies, done) = c20::ws_lockstep_case(&rt, t[1] == "C", rounds, if t[0] == "wslockc" { Some(400) } else { None });
             if done == rounds && handed == sent && replies == sent { println!("PASS {rounds} lock-step rounds, {sent} keep-alives, {replies} replies"); std::process::exit(0) } else { println!("FAIL [{prop}] lock-step WebSocket peer: round {done} of {rounds} never completed: {sent} keep-alives sent, {handed} handed to the caller, {replies} replies received"); std::process::exit(1) } }
+        if r.starts_with("wsidle ") { let t: Vec<&str> = r.split_whitespace().collect(); let rt = tokio::runtime::Builder::new_multi_thread().worker_threads(2).enable_all().build().unwrap();
+            let n: usize = t[2].parse().unwrap(); let replies = c20::ws_idle_after_reads_case(&rt, t[1] == "C", n);
+            if replies == n { println!("PASS {n} replies"); std::process::exit(0) } else { println!("FAIL [{prop}] idle after reads: {replies} of {n} replies reached the peer"); std::process::exit(1) } }
         if r.starts_with("wska ") { let t: Vec<&str> = r.split_whitespace().collect(); let rt = tokio::runtime::Builder::new_multi_thread().worker_threads(2).enable_all().build().unwrap();
             let (sent, handed, replies, others) = c20::ws_keepalive_case(&rt, t[1] == "C", t[2].parse().unwrap());
             if handed == sent && replies == sent && others == 0 { println!("PASS {sent} keep-alives, {replies} replies"); std::process::exit(0) } else { println!("FAIL [C07] {sent} keep-alives sent, {handed} handed over, {replies} replies and {others} other messages seen by the peer"); std::process::exit(1) } }
